@@ -945,7 +945,7 @@ fn rand_fill(rng: &mut Rng) -> String {
             let mut f: Vec<(String, String)> = vec![];
             let solid = rng.chance(1, 2);
             if rng.chance(14, 15) {
-                f.push(("t".into(), if solid { "solid".to_string() } else { rng.pick(&PATTERNS[1..]).to_string() }));
+                f.push(("t".into(), if solid { "solid".to_string() } else { rng.pick(&PATTERNS[..]).to_string() }));
             }
             if rng.chance(9, 10) {
                 f.push(("f".into(), rand_color(rng)));
